@@ -1,10 +1,508 @@
 import RtenVerif.Driver.Util
 import RtenVerif.Model.Optimize
+import RtenVerif.Model.Pattern
 
+/-!
+`model_C01`: model of `GraphOptimizer::optimize` for the modelled fusions. Reads the description of
+the unoptimized graph (+ value metadata the optimizer sees), runs early fusions, the fusion fixpoint
+(≤ 3 passes) with the guard functions of `Model/Optimize.lean` (the ones `c01_rewrite_sound` is about)
+and the matcher of `Model/Pattern.lean`, and prints one term per graph output. Answers `skip` for
+graphs outside the modelled fragment (operator types of unmodelled fusions, constant propagation,
+shape-inference constants).
+-/
 namespace RtenVerif.Driver.C01
-open RtenVerif.Driver
+open RtenVerif.Driver RtenVerif.Pattern
 
-def handle (_line : String) : String := "skip"
+structure VInfo where
+  id : Nat
+  name : String
+  dtype : String
+  shape : Option (List String)
+deriving Repr
+
+structure DOp where
+  oid : Nat
+  ty : String
+  attrs : List (String × List Int)
+  ins : List (Option Nat)
+  outs : List Nat
+  caps : List Nat
+deriving Repr
+
+structure DG where
+  vals : List VInfo := []
+  consts : List ConstInfo := []
+  ops : List DOp := []
+  inputs : List Nat := []
+  /-- `graph.output_ids()` (not updated until `finalize_graph`) -/
+  outputs : List Nat := []
+  /-- `GraphMutator::output_ids` -/
+  mouts : List Nat := []
+  outNames : List String := []
+  next : Nat := 0
+  hasK : Bool := false
+deriving Repr
+
+def DG.view (g : DG) : GView :=
+  { ops := g.ops.map fun o => { oid := o.oid, ty := o.ty, ins := o.ins, outs := o.outs },
+    consts := g.consts, values := g.vals.map (·.id) }
+
+def DG.rank (g : DG) (v : Nat) : Option Nat :=
+  match g.consts.find? (·.id == v) with
+  | some c => some c.shape.length
+  | none => ((g.vals.find? (·.id == v)).bind (·.shape)).map (·.length)
+
+def DG.shape (g : DG) (v : Nat) : Option (List String) :=
+  match g.consts.find? (·.id == v) with
+  | some c => some (c.shape.map toString)
+  | none => (g.vals.find? (·.id == v)).bind (·.shape)
+
+def DG.dtype (g : DG) (v : Nat) : String :=
+  match g.consts.find? (·.id == v) with
+  | some c => c.dtype
+  | none => ((g.vals.find? (·.id == v)).map (·.dtype)).getD "?"
+
+def DG.op? (g : DG) (oid : Nat) : Option DOp := g.ops.find? (·.oid == oid)
+def DG.source (g : DG) (v : Nat) : Option DOp := g.ops.find? (fun o => o.outs.contains v)
+def DOp.attr (o : DOp) (k : String) : Option (List Int) := (o.attrs.find? (·.1 == k)).map (·.2)
+
+/-! ## parsing -/
+
+def parseShape (s : String) : Option (List String) :=
+  if s == "*" then none else if s == "_" then some [] else some (s.splitOn ",")
+
+def parseIds (names : List (String × Nat)) (s : String) : List (Option Nat) :=
+  if s == "-" then [] else (s.splitOn ",").map fun n => if n == "~" then none else (names.find? (·.1 == n)).map (·.2)
+
+def parseAttrs (s : String) : List (String × List Int) :=
+  if s == "-" then [] else
+    (s.splitOn "/").filterMap fun kv =>
+      match kv.splitOn "=" with
+      | [k, v] => some (k, if v == "-" then [] else (v.splitOn ",").filterMap String.toInt?)
+      | _ => none
+
+structure PState where
+  g : DG := {}
+  names : List (String × Nat) := []
+  ok : Bool := true
+
+def PState.idOf (st : PState) (n : String) : PState × Nat :=
+  match st.names.find? (·.1 == n) with
+  | some (_, i) => (st, i)
+  | none =>
+    let i := st.g.next
+    ({ st with names := st.names ++ [(n, i)], g := { st.g with next := i + 1 } }, i)
+
+def parseTok (st : PState) (tok : String) : PState :=
+  match tok.splitOn ":" with
+  | ["I", n, dtv, sh] =>
+    let (st, i) := st.idOf n
+    { st with g := { st.g with vals := st.g.vals ++ [{ id := i, name := n, dtype := dtv, shape := parseShape sh }], inputs := st.g.inputs ++ [i] } }
+  | ["C", n, dtv, sh, vs] =>
+    let (st, i) := st.idOf n
+    let shape := ((parseShape sh).getD []).filterMap String.toNat?
+    let raw := if vs == "~" || vs == "-" then [] else vs.splitOn ","
+    let bitsV : List Nat := if dtv == "f" then raw.filterMap String.toNat? else []
+    let intsV : List Int := if dtv == "f" then [] else raw.filterMap String.toInt?
+    let c : ConstInfo := ⟨i, dtv, shape, bitsV, intsV⟩
+    { st with g := { st.g with consts := st.g.consts ++ [c] } }
+  | ["N", ty, attrs, ins, outs, caps] =>
+    -- output value nodes
+    let (st, outIds) := (outs.splitOn ",").foldl (fun (acc : PState × List Nat) n =>
+      let (s, i) := acc.1.idOf n
+      let s := if s.g.vals.any (·.id == i) then s else { s with g := { s.g with vals := s.g.vals ++ [{ id := i, name := n, dtype := "?", shape := none }] } }
+      (s, acc.2 ++ [i])) (st, [])
+    let oid := st.g.next
+    let op : DOp := ⟨oid, ty, parseAttrs attrs, parseIds st.names ins, outIds, (parseIds st.names caps).filterMap id⟩
+    { st with g := { st.g with ops := st.g.ops ++ [op], next := oid + 1 } }
+  | ["O", outs] =>
+    let ids := (parseIds st.names outs).filterMap id
+    { st with g := { st.g with outputs := ids, mouts := ids, outNames := outs.splitOn "," } }
+  | ["V", n, dtv, sh] =>
+    match st.names.find? (·.1 == n) with
+    | some (_, i) =>
+      { st with g := { st.g with vals := st.g.vals.map fun v => if v.id == i then { v with dtype := dtv, shape := parseShape sh } else v } }
+    | none => st
+  | "K" :: _ => { st with g := { st.g with hasK := true } }
+  | _ => st
+
+/-! ## plan order -/
+
+/-- operators reachable (backwards, through inputs and captures) from `outs`, stopping at `stop`. -/
+def reach (g : DG) (stop : List Nat) : Nat → List Nat → List Nat → List Nat
+  | 0, _, acc => acc
+  | fuel + 1, frontier, acc =>
+    match frontier with
+    | [] => acc
+    | v :: rest =>
+      if stop.contains v then reach g stop fuel rest acc
+      else
+        match g.source v with
+        | none => reach g stop fuel rest acc
+        | some o =>
+          if acc.contains o.oid then reach g stop fuel rest acc
+          else reach g stop fuel (o.ins.filterMap id ++ o.caps ++ rest) (o.oid :: acc)
+
+/-- a topological order of the selected operators (Kahn, list order as tie-break) -/
+def topo (g : DG) (sel : List Nat) : Nat → List Nat → List Nat → List Nat
+  | 0, _, acc => acc
+  | fuel + 1, remaining, acc =>
+    if remaining.isEmpty then acc
+    else
+      let produced (v : Nat) : Bool := remaining.any fun oid => match g.op? oid with | some o => o.outs.contains v | none => false
+      match remaining.find? (fun oid => match g.op? oid with
+          | some o => (o.ins.filterMap id ++ o.caps).all (fun v => !produced v)
+          | none => true) with
+      | some oid => topo g sel fuel (remaining.filter (· != oid)) (acc ++ [oid])
+      | none => acc
+
+def planFor (g : DG) (ins outs : List Nat) : List Nat :=
+  let sel := reach g ins 4096 outs []
+  let sel := (g.ops.map (·.oid)).filter sel.contains
+  topo g sel 4096 sel []
+
+/-! ## fusions -/
+
+inductive Fus where
+  | op (ty : String) (attrs : List (String × List Int)) (ins : List (Option Nat)) (outs : List Nat) (unused : List Nat)
+  | ident (inp out : Nat)
+deriving Repr
+
+def f32 (bits : Nat) : Pat := .const bits false
+def f32x (bits : Nat) : Pat := .const bits true
+def bop (n : String) (a b : Pat) : Pat := .op n [a, b] none
+def uop (n : String) (a : Pat) : Pat := .op n [a] none
+def X : Pat := .sym "x" false
+
+-- f32 bit patterns of the pattern constants
+def bOne := 1065353216
+def bZero := 0
+def bHalf := 1056964608
+def bTwo := 1073741824
+def bThree := 1077936128
+def bSqrt2 := 1068827891          -- (2f32).sqrt()
+def bInvSqrt2 := 1060439283       -- 1 / (2f32).sqrt()
+def bSqrt2Pi := 1061962281        -- (2/pi).sqrt()
+def bGeluK := 1027024659          -- 0.044715
+
+def identityPat : Pat := .anyOf [uop "Identity" X, bop "Add" X (f32x bZero), bop "Sub" X (f32x bZero), bop "Mul" X (f32x bOne), bop "Div" X (f32x bOne)]
+def reciprocalPat : Pat := bop "Div" (f32 bOne) X
+def siluPat : Pat := bop "Mul" X (uop "Sigmoid" X)
+def swishPat : Pat := bop "Mul" X (uop "Sigmoid" (bop "Mul" (.sym "alpha" true) X))
+def geluPat : Pat :=
+  let xs := Pat.anyOf [bop "Div" X (f32 bSqrt2), bop "Mul" X (f32 bInvSqrt2)]
+  bop "Mul" (bop "Mul" X (bop "Add" (uop "Erf" xs) (f32 bOne))) (f32 bHalf)
+def approxGeluPat : Pat :=
+  bop "Mul" (bop "Mul" X (f32 bHalf))
+    (bop "Add" (f32 bOne) (uop "Tanh" (bop "Mul" (f32 bSqrt2Pi) (bop "Add" X (bop "Mul" (bop "Pow" X (f32 bThree)) (f32 bGeluK))))))
+def centerPat : Pat := bop "Sub" X (.op "ReduceMean" [X] (some "center_mean"))
+def normVarPat : Pat :=
+  bop "Div" centerPat (uop "Sqrt" (bop "Add" (.sym "epsilon" true) (.op "ReduceMean" [bop "Pow" centerPat (f32 bTwo)] (some "norm_mean"))))
+def layerNormPat : Pat :=
+  .anyOf [bop "Add" (bop "Mul" normVarPat (.sym "scale" true)) (.sym "bias" true), bop "Mul" normVarPat (.sym "scale" true)]
+def rmsNormPat : Pat :=
+  bop "Mul" (bop "Mul" X (uop "Reciprocal" (uop "Sqrt" (bop "Add" (.sym "epsilon" true)
+    (.op "ReduceMean" [bop "Pow" X (f32 bTwo)] (some "norm_mean")))))) (.sym "scale" true)
+def matmulAddPat : Pat := bop "Add" (bop "MatMul" (.sym "a" false) (.sym "b" false)) (.sym "bias" true)
+def safeSoftmaxPat : Pat :=
+  let y := Pat.op "Softmax" [X] (some "softmax")
+  .op "Where" [uop "IsNaN" y, f32 bZero, y] none
+def addSoftmaxPat : Pat := .op "Softmax" [bop "Add" (.sym "qk" false) (.sym "mask" false)] (some "softmax")
+def reduceMeanAxesPat : Pat := .op "ReduceMean" [X, .sym "axes" true] (some "mean")
+
+def cfgOf (g : DG) : MatchCfg := { strictKeys := true, rankGuard := true, rank := g.rank }
+
+def tryMatch (g : DG) (p : Pat) (oid : Nat) : Option Syms := matchPat g.view (cfgOf g) 64 p oid []
+
+def singleF (g : DG) (v : Nat) : Bool :=
+  match g.consts.find? (·.id == v) with
+  | some c => c.dtype == "f" && c.shape.foldl (· * ·) 1 == 1
+  | none => false
+
+/-- `get_scalar_operand` (fixed code) -/
+def scalarOperand (g : DG) (v other : Nat) : Bool :=
+  singleF g v && (match g.rank v with
+    | some 0 => true
+    | some r => (match g.rank other with | some ro => ro ≥ r | none => false)
+    | none => false)
+
+/-- `op_applied_to_last_axis` -/
+def lastAxis (g : DG) (oid : Nat) (axisOf : DOp → Option Int) : Bool :=
+  match g.op? oid with
+  | none => false
+  | some o =>
+    match axisOf o with
+    | none => false
+    | some ax =>
+      if ax == -1 then true
+      else
+        match (o.ins.head?.bind id).bind g.rank with
+        | some (r + 1) => (r : Int) == ax
+        | _ => false
+
+def meanAxis (o : DOp) : Option Int :=
+  if o.ty != "ReduceMean" then none else match o.attr "axes" with | some [a] => some a | _ => none
+def softmaxAxis (o : DOp) : Option Int :=
+  if o.ty != "Softmax" then none else match o.attr "axis" with | some [a] => some a | _ => some (-1)
+
+def patFusion (g : DG) (o : DOp) (p : Pat) (newTy : String) (inputs : List String)
+    (check : Syms → Option (List (String × List Int))) : Option Fus :=
+  (tryMatch g p o.oid).bind fun s =>
+    (check s).map fun attrs => Fus.op newTy attrs (inputs.map s.find) o.outs []
+
+def onnxDt (to : Int) : String :=
+  if to == 1 then "f" else if to == 6 || to == 7 || to == 9 then "i" else if to == 2 then "u8" else if to == 3 then "i8" else "other"
+
+def vIdentity (g : DG) (o : DOp) : Option Fus :=
+  (tryMatch g identityPat o.oid).bind fun s =>
+    match s.find "x", o.outs with
+    | some x, [out] => some (.ident x out)
+    | _, _ => none
+
+def vCast (g : DG) (o : DOp) : Option Fus :=
+  if o.ty != "Cast" then none else
+  match o.attr "to", o.ins, o.outs with
+  | some [to], [some i], [out] => if g.dtype i != "?" && g.dtype i == onnxDt to then some (.ident i out) else none
+  | _, _, _ => none
+
+/-- exact value `num / den` of a single-element f32 constant (`den` a power of two) -/
+def constRat (g : DG) (v : Nat) : Int × Int :=
+  match (g.consts.find? (·.id == v)).map (·.bits) with
+  | some [b] =>
+    match f32Rat b with
+    | some (m, e) => if e ≥ 0 then (m * (2 : Int) ^ e.toNat, 1) else (m, (2 : Int) ^ (-e).toNat)
+    | none => (0, 0)
+  | _ => (0, 0)
+
+/-- `get_scale_factor`: the non-constant operand and the scale (as a fraction) if `o` is a
+Mul/Div by a constant scalar -/
+def scaleFactor (g : DG) (o : DOp) : Option (Nat × (Int × Int)) :=
+  if o.ty == "Mul" then
+    match o.ins with
+    | [some l, some r] =>
+      match scalarOperand g l r, scalarOperand g r l with
+      | true, false => some (r, constRat g l)
+      | false, true => some (l, constRat g r)
+      | _, _ => none
+    | _ => none
+  else if o.ty == "Div" then
+    match o.ins with
+    | [some l, some r] =>
+      if !scalarOperand g l r && scalarOperand g r l then
+        let (n, d) := constRat g r
+        some (l, (d, n))
+      else none
+    | _ => none
+  else none
+
+/-- `MatMulScaleFusion`. `alpha == 1.0` (no effect) is decided on the exact rational product of the
+scale factors; the code multiplies in f32 (`1/c` rounded), which agrees whenever the factors are
+powers of two (what the templates use) and can differ only when a rounded product lands on 1.0. -/
+def vMatMulScale (g : DG) (o : DOp) : Option Fus :=
+  let mm : Option (DOp × (Int × Int)) :=
+    if o.ty == "Mul" || o.ty == "Div" then
+      (scaleFactor g o).bind fun (inp, sc) => (g.source inp).map fun m => (m, sc)
+    else some (o, (1, 1))
+  mm.bind fun (m, so) =>
+    if m.ty != "MatMul" then none else
+    match m.ins with
+    | [some l, some r] =>
+      let side (v : Nat) : Nat × (Int × Int) :=
+        match g.source v with
+        | some sop => (match scaleFactor g sop with | some (inp, sc) => (inp, sc) | none => (v, (1, 1)))
+        | none => (v, (1, 1))
+      let (li, ls) := side l
+      let (ri, rs) := side r
+      -- alpha == 1.0 (decided on the exact product; see the doc comment)
+      let num := so.1 * ls.1 * rs.1
+      let den := so.2 * ls.2 * rs.2
+      if num == den && den != 0 then none
+      else some (Fus.op "FusedMatMul" [] [some li, some ri] o.outs [])
+    | _ => none
+
+def visitorsEarly : List (DG → DOp → Option Fus) := [vCast, vIdentity]
+
+def vLayerNorm (g : DG) (o : DOp) : Option Fus :=
+  patFusion g o layerNormPat "LayerNormalization" ["x", "scale", "bias"] fun s =>
+    match s.find "norm_mean", s.find "center_mean", s.find "epsilon", s.find "scale" with
+    | some nm, some cm, some eps, some sc =>
+      let vecOk (v : Option Nat) : Bool := match v with | some v => (match g.rank v with | some r => r ≤ 1 | none => false) | none => true
+      if lastAxis g nm meanAxis && lastAxis g cm meanAxis && singleF g eps && vecOk (some sc) && vecOk (s.find "bias")
+      then some [] else none
+    | _, _, _, _ => none
+
+def vRmsNorm (g : DG) (o : DOp) : Option Fus :=
+  patFusion g o rmsNormPat "RMSNormalization" ["x", "scale"] fun s =>
+    match s.find "norm_mean", s.find "epsilon", s.find "scale" with
+    | some nm, some eps, some sc =>
+      if singleF g eps && lastAxis g nm meanAxis && (match g.rank sc with | some r => r ≤ 1 | none => false) then some [] else none
+    | _, _, _ => none
+
+def vMatMulAdd (g : DG) (o : DOp) : Option Fus :=
+  patFusion g o matmulAddPat "FusedMatMul" ["a", "b", "bias"] fun s =>
+    match s.find "bias", s.find "b" with
+    | some bias, some b =>
+      match (g.consts.find? (·.id == bias)).map (·.shape) with
+      | some [len] =>
+        match g.shape b with
+        | none => some []
+        | some sh =>
+          if sh.length < 2 then none
+          else
+            let last := sh.getLast!
+            if last.startsWith "$" || last == toString len then some [] else none
+      | _ => none
+    | _, _ => none
+
+def vReduceMeanAxes (g : DG) (o : DOp) : Option Fus :=
+  patFusion g o reduceMeanAxesPat "ReduceMean" ["x"] fun s =>
+    match (s.find "axes").bind (fun a => g.consts.find? (·.id == a)) with
+    | some c =>
+      if c.dtype == "i" && c.shape.length == 1 then
+        some ([("axes", c.ints)] ++ (o.attrs.filter fun kv => kv.1 != "axes"))
+      else none
+    | none => none
+
+def visitorsMain : List (DG → DOp → Option Fus) :=
+  [ vIdentity,
+    fun g o => patFusion g o reciprocalPat "Reciprocal" ["x"] fun _ => some [],
+    vReduceMeanAxes,
+    fun g o => patFusion g o siluPat "Silu" ["x"] fun _ => some [],
+    fun g o => patFusion g o swishPat "Swish" ["x"] fun s =>
+      match s.find "alpha", s.find "x" with
+      | some a, some x => if scalarOperand g a x then some [] else none
+      | _, _ => none,
+    fun g o => patFusion g o geluPat "Gelu" ["x"] fun _ => some [],
+    fun g o => patFusion g o approxGeluPat "Gelu" ["x"] fun _ => some [],
+    vLayerNorm, vRmsNorm, vMatMulAdd, vMatMulScale,
+    fun g o => patFusion g o safeSoftmaxPat "Softmax" ["x"] fun s =>
+      ((s.find "softmax").bind g.op?).map fun so => so.attrs,
+    fun g o => patFusion g o addSoftmaxPat "AddSoftmax" ["qk", "mask"] fun s =>
+      match s.find "softmax" with
+      | some sm => if lastAxis g sm softmaxAxis then some [] else none
+      | none => none ]
+
+/-! ## apply_fusion -/
+
+def toModel (g : DG) : List (RtenVerif.Optimize.Op Unit) :=
+  g.ops.map fun o => { oid := o.oid, kind := (), ins := o.ins.filterMap id, caps := o.caps, outs := o.outs }
+
+def replaceValue (g : DG) (old new : Nat) : DG :=
+  { g with
+    mouts := g.mouts.map fun i => if i == old then new else i,
+    ops := g.ops.map fun o => { o with ins := o.ins.map fun i => if i == some old then some new else i } }
+
+structure Repl where
+  fus : Fus
+  unfused : List Nat
+
+def fusInputs : Fus → List Nat
+  | .op _ _ ins _ unused => ins.filterMap id ++ unused
+  | .ident i _ => [i]
+def fusOutputs : Fus → List Nat
+  | .op _ _ _ outs _ => outs
+  | .ident _ o => [o]
+
+def collect (g : DG) (visitors : List (DG → DOp → Option Fus)) : List Nat → List Nat → List Repl → List Repl
+  | [], _, acc => acc
+  | oid :: rest, pending, acc =>
+    if pending.contains oid then collect g visitors rest pending acc
+    else
+      match g.op? oid with
+      | none => collect g visitors rest pending acc
+      | some o =>
+        match visitors.findSome? (fun v => v g o) with
+        | none => collect g visitors rest pending acc
+        | some fus =>
+          let unfused := planFor g (fusInputs fus).eraseDups (fusOutputs fus)
+          -- claim operators one by one; stop at the first one already claimed
+          let rec claim : List Nat → List Nat → List Nat × Bool
+            | [], p => (p, true)
+            | u :: us, p => if p.contains u then (p, false) else claim us (u :: p)
+          let (pending', ok) := claim unfused pending
+          if !ok then collect g visitors rest pending' acc
+          else
+            let m := toModel g
+            let g1 := (RtenVerif.Optimize.usedOutside m g.outputs unfused (fusOutputs fus)).isNone
+            let preserved := match fus with | .op _ _ _ outs _ => outs | .ident _ _ => []
+            let g2 := (RtenVerif.Optimize.capturedRemoved m unfused preserved).isNone
+            if g1 && g2 then collect g visitors rest pending' (acc ++ [{ fus := fus, unfused := unfused }])
+            else collect g visitors rest pending' acc
+
+def applyFusions (g : DG) (visitors : List (DG → DOp → Option Fus)) : DG × Nat :=
+  let plan := planFor g g.inputs g.outputs
+  let repls := collect g visitors plan.reverse [] []
+  let removed := repls.flatMap (·.unfused)
+  let g := { g with ops := g.ops.filter fun o => !removed.contains o.oid }
+  let g := repls.foldl (fun (g : DG) r =>
+    match r.fus with
+    | .op ty attrs ins outs _ =>
+      { g with ops := g.ops ++ [{ oid := g.next, ty := ty, attrs := attrs, ins := ins, outs := outs, caps := [] }], next := g.next + 1 }
+    | .ident inp out =>
+      if g.outputs.contains out then
+        { g with ops := g.ops ++ [{ oid := g.next, ty := "Identity", attrs := [], ins := [some inp], outs := [out], caps := [] }], next := g.next + 1 }
+      else replaceValue g out inp) g
+  (g, repls.length)
+
+/-! ## pipeline, printing -/
+
+def knownTypes : List String :=
+  ["Add", "Sub", "Mul", "Div", "Identity", "Cast", "Neg", "Abs", "Relu", "Sigmoid", "Erf", "Tanh", "Pow", "Sqrt",
+   "Reciprocal", "ReduceMean", "Softmax", "IsNaN", "Where", "MatMul", "If"]
+
+def isConstV (g : DG) (v : Nat) : Bool := g.consts.any (·.id == v)
+
+/-- would constant propagation fold something? (an operator of the plan with only constant inputs) -/
+def constPropFires (g : DG) : Bool :=
+  let plan := planFor g [] g.mouts
+  plan.any fun oid => match g.op? oid with
+    | some o => o.caps.isEmpty && (o.ins.filterMap id).all (isConstV g)
+    | none => false
+
+def constCode (c : ConstInfo) : String :=
+  let sh := ",".intercalate (c.shape.map toString)
+  if c.dtype == "f" then s!"#f[{sh}]"
+  else if c.dtype == "i" then
+    if c.shape.foldl (· * ·) 1 ≤ 8 && (c.ints.length == c.shape.foldl (· * ·) 1) then
+      "#i[" ++ sh ++ "]{" ++ ",".intercalate (c.ints.map toString) ++ "}"
+    else s!"#i[{sh}]"
+  else s!"#{c.dtype}[{sh}]"
+
+def term (g : DG) : Nat → Nat → String
+  | 0, _ => "..."
+  | fuel + 1, v =>
+    match g.consts.find? (·.id == v) with
+    | some c => constCode c
+    | none =>
+      match g.source v with
+      | none => ((g.vals.find? (·.id == v)).map (·.name)).getD "?missing"
+      | some o =>
+        let args := o.ins.map fun i => match i with | none => "~" | some i => term g fuel i
+        let idx := (o.outs.idxOf v)
+        if o.outs.length > 1 then s!"{o.ty}.{idx}({",".intercalate args})" else s!"{o.ty}({",".intercalate args})"
+
+def optimize (g : DG) : Option DG :=
+  if g.hasK then none
+  else if g.ops.any (fun o => !knownTypes.contains o.ty) then none
+  else
+    let (g, _) := applyFusions g visitorsEarly
+    if constPropFires g then none
+    else
+      let rec loop : Nat → DG → DG
+        | 0, g => g
+        | n + 1, g =>
+          let (g', k) := applyFusions g visitorsMain
+          if k == 0 then g' else loop n g'
+      some (loop 3 g)
+
+def handle (line : String) : String :=
+  let toks := words line
+  let st := toks.foldl parseTok ({} : PState)
+  match optimize st.g with
+  | none => "skip"
+  | some g =>
+    let parts := (g.outNames.zip g.mouts).map fun (n, v) => s!"{n}={term g 60 v}"
+    ";".intercalate parts
 
 end RtenVerif.Driver.C01
 
